@@ -693,7 +693,7 @@ def run_lowpass(ctx, case):
 def small_case(case, kind='lowpass'):
     d = dict(kind=kind, pops=case['pops'], thr=case['thr'], nsim=case['nsim'], sim_seed=case['sim_seed'],
              data=np.asarray(case['data'], dtype=float), mask=(None if case.get('mask') is None else np.asarray(case['mask'], dtype=int)),
-             model_kind=case.get('model_kind'), Fx_none=bool(case.get('Fx_none')), deep=bool(case.get('deep')))
+             model_kind=case.get('model_kind'), Fx_none=bool(case.get('Fx_none')), deep=bool(case.get('deep')), deep_l1=bool(case.get('deep_l1')))
     if case.get('ids'): d['ids'] = list(case['ids'])
     return d
 
@@ -797,7 +797,10 @@ def deep_l1_check(chk, ctx, case, model, out, inp, tag=''):
     l1 = float(np.abs(odata - ref).sum())
     lim = float(bound) * tot + RTOL * scale * odata.size
     if tot > 0:
-        chk.stats['deep_l1_max_ratio'] = max(chk.stats.get('deep_l1_max_ratio', 0.0), l1 / (float(bound) * tot))     # observed l1 distance / proved bound
+        chk.stats['deep_l1_max_ratio'] = max(chk.stats.get('deep_l1_max_ratio', 0.0), l1 / lim)     # observed l1 distance / (proved bound + round-off allowance)
+    if tot > 0 and float(bound) * tot > 100 * RTOL * scale * odata.size:
+        chk.stat('deep_l1_informative')
+        chk.stats['deep_l1_max_ratio_informative'] = max(chk.stats.get('deep_l1_max_ratio_informative', 0.0), l1 / (float(bound) * tot))   # observed / proved, where round-off is negligible
     if not np.isfinite(l1) or l1 > lim:
         chk.fail('make_low_pass_func:deep-coverage:l1', '%severy individual has depth >= %d, sim_threshold=%r: the corrected model is at l1 distance %.3g from the model '
                  'projected with projection_matrix, more than the proved bound ((1 + max nseq*D) + %d*4*max nsub) 2^-D * total = %.3g' % (tag, D, case['thr'], l1, d, lim), inp)
@@ -862,6 +865,7 @@ def check_lowpass(chk, ctx, case, do_model=True):
     tot_in = float(mdata.sum()); tot_out = float(vis.sum()); scale = max(float(np.max(np.abs(mdata))), 1e-300)
     if case.get('deep'):
         deep_check(chk, ctx, case, model, out, inp)
+    if case.get('deep') or case.get('deep_l1'):
         deep_l1_check(chk, ctx, case, model, out, inp)
     check_part_cache(chk, ctx, inp, 'make_low_pass_func')
     sim_outputs = {}; use_sim_mat = None; pn = None
@@ -1320,6 +1324,23 @@ def gen_history(rng, tier, what=None, d=None, regime=None, reference='reload'):
         order = [int(k) for k in rng.permutation(order)]
     return dict(what=what, funcs=funcs, order=order, build_first=bool(rng.random() < 0.5), reference=reference)
 
+def gen_mid_cov(rng):
+    """no mass below a moderate depth D in 8..30: the proved deep-coverage bound is neither trivial nor below round-off"""
+    D = int(rng.integers(8, 31)); hi = D + int(rng.integers(0, 10))
+    w = np.zeros(hi + 1); w[D:] = rng.uniform(0.1, 1, hi + 1 - D)
+    T = 4096
+    iw = np.floor(w / w.sum() * T).astype(int)
+    iw[D] += T - iw.sum()
+    return (iw / T).tolist(), 'mid-deep'
+
+def gen_mid_deep_case(rng, tier, d):
+    """analytic / mixed evaluation with moderately deep coverage: exercises C18_deep_coverage where its bound is informative"""
+    case = gen_lowpass_case(rng, tier, d=d, regime=['analytic', 'mixed'][int(rng.integers(2))], deep=False)
+    for p in case['pops']:
+        p['cov'], p['cov_kind'] = gen_mid_cov(rng)
+    case['deep_l1'] = True
+    return case
+
 def gen_lowpass_case(rng, tier, d=None, regime=None, deep=False):
     if d is None:
         d = int(rng.choice([1, 1, 1, 2, 2, 3]))
@@ -1474,6 +1495,8 @@ def run(chk, ctx):
     plan += [(1, 'analytic', True)] * (10 if quick else 60) + [(2, 'analytic', True)] * (5 if quick else 30) + [(1, 'mixed', True)] * (4 if quick else 16) + [(3, 'analytic', True)] * (2 if quick else 8)
     for d, regime, deep in plan:
         check_lowpass(chk, ctx, gen_lowpass_case(rng, tier, d=d, regime=regime, deep=deep))
+    for it in range(16 if quick else 100):
+        check_lowpass(chk, ctx, gen_mid_deep_case(rng, tier, d=[1, 1, 2, 3][it % 4]))
     # ---- the simulated path: subsampling of called genotypes, deep-coverage identity with nsub < nseq (statistical)
     for it in range(40 if quick else 250):
         check_subsample(chk, ctx, gen_subsample(rng, tier))
